@@ -176,6 +176,15 @@ theorem step_sim {c : Cfg} {kd : Kind} (hc : Proved kd c) (s : Lru) (op : Op) (h
     simp only [step, specStep]
     refine ⟨h.1, h.2.1, ?_⟩
     rw [h.2.2.2]; rfl
+  | setF k => exact ⟨hi, rfl, rfl⟩
+  | setGetRemovedF k => exact ⟨hi, rfl, rfl⟩
+  | setIfAbsentF k =>
+    simp only [step, specStep, show (abs s).entries = s.list from rfl]
+    cases hf : find? k s.list with
+    | some old =>
+      simp only [hsia, if_true]
+      exact ⟨inv_touch hi hf, by first | rfl | trivial, by first | rfl | trivial⟩
+    | none => exact ⟨hi, by first | rfl | trivial, by first | rfl | trivial⟩
   | keys => exact ⟨hi, by first | rfl | trivial, by first | rfl | trivial⟩
   | items => exact ⟨hi, by first | rfl | trivial, by first | rfl | trivial⟩
   | stats => exact ⟨hi, rfl, by simp [step, specStep, abs, hi.size_eq]⟩
